@@ -410,6 +410,8 @@ def check_scan(case) -> Outcome:
         root = guarded(5.0, _md.scan, text)
     except CaseTimeout:
         return o.exclude("slow-scan")
+    except Exception as e:
+        return o.exclude("scan-raised:" + type(e).__name__ + " (C01's business)")
     nodes = abs_nodes(root)
     if not any(n.type == want[0] and (s, e) == (want[1], want[2]) for s, e, n in nodes):
         covering = [(n.type, s, e) for s, e, n in nodes if s <= want[1] and e >= want[2] and n.value.lower() != n.original.lower()]
